@@ -401,6 +401,7 @@ def oracle(spec, mol, mlist, out, logs, raw):
         has_spawned = any(not any(b in ws for ws in m.mapping.values()) for b in m.block_to.nodes)
         return bool(m.mapping.get(f)) or has_spawned
     strict = set(shared)       # F-C01-4 is fixed: every shared atom must be reported
+    info['both_empty'] = any(sum(1 for j in range(len(places)) if a in atomsets[j] and not contributes(j, a)) >= 2 for a in shared)
     info['overlap_noncontributing'] = any(not contributes(j, a) for a in shared for j in range(len(places)) if a in atomsets[j])
     if strict and (logging.WARNING, 'inconsistent-data') not in types:
         errs.append(('overlap_warned', 'atoms %r are in two placements and no inconsistent-data warning was raised'
@@ -633,6 +634,21 @@ def gen_ff(rng, feat):
                                  'from_edges': [list(e) for e in ty['edges']],
                                  'to_nodes': to_nodes, 'to_edges': to_edges, 'to_inters': to_inters,
                                  'nrexcl': nrexcl, 'mapping': mapping, 'refs': refs})
+    # an atom that contributes to nothing in two OVERLAPPING placements (empty weight table in both mappings)
+    by_name = {}
+    for mp in mappings:
+        by_name.setdefault(mp['name'], []).append(mp)
+    for group in by_name.values():
+        if len(group) >= 2 and rng.random() < feat.get('p_both_empty', 0.35):
+            common = [f for f, _ in group[0]['mapping'] if any(f == g for g, _ in group[1]['mapping'])
+                      and not f.startswith('H')]
+            if common:
+                f = rng.choice(common)
+                for mp in group[:2]:
+                    for entry in mp['mapping']:
+                        if entry[0] == f:
+                            entry[1] = []
+                    mp['refs'] = [r for r in mp['refs'] if r[1] != f]
     link = None
     if rng.random() < feat['p_two']:
         t1, t2 = rng.randrange(ntypes), rng.randrange(ntypes)
@@ -761,7 +777,7 @@ def finding_of(clauses, spec):
 # ----------------------------------------------------------------------------
 # main loop
 # ----------------------------------------------------------------------------
-FEAT = {'p_unmapped': 0.08, 'p_empty': 0.03, 'p_spawn': 0.3, 'p_ref': 0.2, 'p_dup': 0.1, 'p_two': 0.35,
+FEAT = {'p_unmapped': 0.08, 'p_empty': 0.03, 'p_spawn': 0.3, 'p_ref': 0.2, 'p_dup': 0.2, 'p_both_empty': 0.6, 'p_two': 0.35,
         'p_nrexcl': 0.02}
 cases = []
 corpus_file = os.path.join(VERIF, 'corpus', 'c01_hard.json')
@@ -815,7 +831,8 @@ for (cid, spec, meta, status, impl, errs, info, logs, ln), sent, mo in zip(recs,
     chk.count('topo=' + meta['topo'])
     chk.count('keys=' + meta['keys'])
     chk.count('placements=%s' % (npl if npl < 6 else '6+'))
-    for name, flag in (('repeated_interaction_same_atoms', any(len({(e[0], tuple(e[1])) for e in m['to_inters']}) < len(m['to_inters']) for m in spec['mappings'])),
+    for name, flag in (('atom_empty_in_two_overlapping_placements', info.get('both_empty')),
+                       ('repeated_interaction_same_atoms', any(len({(e[0], tuple(e[1])) for e in m['to_inters']}) < len(m['to_inters']) for m in spec['mappings'])),
                        ('first_matched_atom_not_lowest_key', info.get('first_not_min')), ('overlap', info.get('overlap')), ('overlap_noncontributing_atom', info.get('overlap_noncontributing')), ('spawned', info.get('spawned')), ('lost_atoms', info.get('lost')),
                        ('inter_bonds', info.get('inter_bonds')), ('warn_garbage', kinds[1]), ('warn_disconnected', kinds[2]),
                        ('warn_hydrogens', kinds[4]), ('two_residue_mapping', any(m['name'] == 'PAIR' for m in spec['mappings'])),
@@ -960,6 +977,7 @@ def build_mod_case(rng):
     prev = None
     extra = 10 * nres
     plan = []
+    res_locals = []
     for r in range(nres):
         local = {}
         for q, n in enumerate(names):
@@ -971,9 +989,22 @@ def build_mod_case(rng):
         if prev is not None:
             mol.add_edge(prev, local['C1'])
         prev = local[names[-1]]
-        for mname in ('PHOS', 'METH'):
-            if rng.random() < 0.35:
-                plan.append((r, mname, local))
+        res_locals.append(local)
+    style = rng.choice(['random', 'random', 'same_separated', 'two_separated'])
+    if style == 'same_separated' and nres >= 3:
+        mname = rng.choice(['PHOS', 'METH'])
+        for r in list(range(0, nres, 2))[:3]:
+            plan.append((r, mname, res_locals[r]))              # residues 0, 2(, 4): never joined
+    elif style == 'two_separated' and nres >= 3:
+        plan.append((0, 'PHOS', res_locals[0]))
+        plan.append((2, 'METH', res_locals[2]))
+        if nres >= 5 and rng.random() < 0.5:
+            plan.append((4, 'PHOS', res_locals[4]))
+    else:
+        for r in range(nres):
+            for mname in ('PHOS', 'METH'):
+                if rng.random() < 0.35:
+                    plan.append((r, mname, res_locals[r]))
     for r, mname, local in plan:
         src, ptm, anchor = defs[mname]
         last = local[anchor]
@@ -1007,6 +1038,40 @@ def mod_oracle(mol, out, logs, mods, rawm, nres_expected=None):
                 if not hits:
                     errs.append(('mod_weights', 'atom %r of a matched modification %s should contribute %s to a '
                                  'particle %s' % (atom, m.names, w, want_name)))
+    places = {}
+    for i, mt in rawm:
+        places.setdefault((i, tuple(sorted(mt))), 0)
+        places[(i, tuple(sorted(mt)))] += 1
+    twice = [k for k, c in places.items() if c > 1]
+    if twice:
+        errs.append(('mod_copies', 'modification mapping %s is applied %d times at the same place (atoms %r)'
+                     % (mods[twice[0][0]].names, places[twice[0]], [x for x, _ in twice[0][1]])))
+    # exactly one new particle per (modification mapping, place) and PTM node
+    want_new = {}
+    for (i, mt) in places:
+        for _, a in mods[i].block_to.nodes(data=True):
+            if a.get('PTM_atom'):
+                want_new[a['atomname']] = want_new.get(a['atomname'], 0) + 1
+    got_new = {}
+    for n in out.nodes:
+        nm = out.nodes[n].get('atomname')
+        if nm in want_new or any(nm == a.get('atomname') and a.get('PTM_atom') for m in mods
+                                 for _, a in m.block_to.nodes(data=True)):
+            got_new[nm] = got_new.get(nm, 0) + 1
+    if got_new != want_new:
+        errs.append(('mod_copies', 'new particles %r, one per modification mapping and place would be %r'
+                     % (got_new, want_new)))
+    # each atom of a modification place contributes exactly what the mapping declares (PTM atoms: nothing else)
+    for (i, mt) in places:
+        m = mods[i]
+        for atom, f in mt:
+            if not mol.nodes[atom].get('PTM_atom'):
+                continue
+            declared = sorted((m.block_to.nodes[t]['atomname'], Fraction(w)) for t, w in m.mapping.get(f, {}).items())
+            actual = sorted((out.nodes[n].get('atomname'), Fraction(cons[n][atom])) for n in out.nodes if atom in cons[n])
+            if declared != actual:
+                errs.append(('mod_weights', 'PTM atom %r contributes %r, its modification mapping declares %r'
+                             % (atom, actual, declared)))
     lost = [a for a in mol.nodes if a not in contributing and mol.nodes[a].get('element', '') != 'H']
     if lost and (logging.WARNING, 'unmapped-atom') not in types:
         errs.append(('no_silent_loss', 'atoms %r contribute to no particle, no unmapped-atom warning' % lost[:5]))
@@ -1048,7 +1113,8 @@ for i in range(1500 if chk.thorough else 150):
     groups = mod_groups(mol)
     ncant = sum(1 for _, _, msg in logs if msg.startswith("Can't find modification mappings"))
     sel_lines.append(line('modselect', known, groups))
-    sel_recs.append(('modsel-%d' % i, enc(sorted(sorted(n) for n in set(called))) + ' %d' % ncant, len(groups)))
+    # every needed modification mapping is matched over the molecule exactly ONCE (list, not set)
+    sel_recs.append(('modsel-%d' % i, enc(sorted(sorted(n) for n in called)) + ' %d' % ncant, len(groups)))
 mod_models = chk.drv.ask(mod_lines) if chk.lean_ok else [None] * len(mod_lines)
 for (cid, impl, errs, has_new, meta, status, nm), ln, mo in zip(mod_recs, mod_lines, mod_models):
     cl = {c for c, _ in errs}
